@@ -39,6 +39,18 @@ def run(ctx):
         e = guarded('pair_within', rp, lambda: '(pair_within_ok %s %s)' % (cnl(lab), cpairings(ps)))
         if e: add('pair_within', e, rp, key=n)
     ctx.parts['pair_within']['exhaustive'] = 'all lengths 1..%d' % nmax
+    # the same on label lists in which 0 (a falsy label) is not the first element: rotations, reversal, random permutations
+    for n in range(2, N(30, 60) + 1):
+        for variant in ('rot', 'rev', 'perm'):
+            lab = list(range(n))
+            if variant == 'rot': r = rng.randrange(1, n); lab = lab[r:] + lab[:r]
+            elif variant == 'rev': lab = lab[::-1]
+            else: rng.shuffle(lab)
+            rp = {'call': 'pair_within', 'labels': repr(lab)}
+            ps = guarded('pair_within', rp, lambda: [tuple(p) for p in fp.pair_within(list(lab))])
+            if ps is None: continue
+            e = guarded('pair_within', rp, lambda: '(pair_within_ok %s %s)' % (cnl(lab), cpairings(ps)))
+            if e: add('pair_within_labels', e, rp, key=(n, variant))
     # pair_between: all length pairs
     m = N(9, 14)
     for a, b in itertools.product(range(1, m + 1), repeat=2):
